@@ -29,6 +29,8 @@ pub struct ReadProblem {
     pub readable: bool,
     /// declared predicates (name, arity) other than the preamble's
     pub preds: Vec<(String, usize)>,
+    /// the file as written
+    pub text: String,
 }
 
 static COUNTER: std::sync::atomic::AtomicUsize = std::sync::atomic::AtomicUsize::new(0);
@@ -69,7 +71,7 @@ pub fn run_verify(flags: &[&str], files: &[(&str, &str)]) -> Result<(i32, String
 
 pub fn read_problem(file: &str, text: &str) -> ReadProblem {
     match tff::parse(text) {
-        Err(e) => ReadProblem { file: file.into(), formulas: vec![], wf_errors: vec![format!("not valid TFF: {e}")], readable: false, preds: vec![] },
+        Err(e) => ReadProblem { file: file.into(), formulas: vec![], wf_errors: vec![format!("not valid TFF: {e}")], readable: false, preds: vec![], text: text.to_string() },
         Ok(p) => {
             let (sig, mut errs) = p.check();
             let mut formulas = Vec::new();
@@ -80,7 +82,7 @@ pub fn read_problem(file: &str, text: &str) -> ReadProblem {
                 }
             }
             let preds = p.entries.iter().filter_map(|e| match &e.decl { Some((n, tff::Decl::Pred(a))) if !n.starts_with("p__") => Some((n.clone(), a.len())), _ => None }).collect();
-            ReadProblem { file: file.into(), formulas, wf_errors: errs, readable, preds }
+            ReadProblem { file: file.into(), formulas, wf_errors: errs, readable, preds, text: text.to_string() }
         }
     }
 }
@@ -203,6 +205,13 @@ pub fn check_pair(left: &str, right: &str, flag_sets: &[&[&str]], n_interp: usiz
             continue;
         }
         st.problems += problems.len();
+        if flags.is_empty() {
+            // C18: a second process writes byte-identical problems
+            if let Ok((_, _, again)) = run_verify(&all, &[("a.lp", left), ("b.lp", right)]) {
+                let (x, y): (Vec<(&String, &String)>, Vec<(&String, &String)>) = (problems.iter().map(|p| (&p.file, &p.text)).collect(), again.iter().map(|p| (&p.file, &p.text)).collect());
+                if x != y { fails.push(Failure { property: "C18", input: what.clone(), detail: "two runs on the same input wrote different problem files".into() }); }
+            }
+        }
         for p in &problems {
             for e in &p.wf_errors { fails.push(Failure { property: "C09", input: what.clone(), detail: format!("{}: {e}", p.file) }); }
             // C12: the axioms anthem adds hold in the standard interpretation
